@@ -52,6 +52,7 @@ struct P<'a> {
 	i: usize,
 	lenient: bool,
 	dontcare: bool,
+	repeated: bool,
 }
 
 impl P<'_> {
@@ -184,11 +185,15 @@ impl P<'_> {
 			self.i += 1;
 			self.ws();
 			let v = self.value()?.ok_or(())?;
-			if props.iter().any(|p| p.0 == key) {
-				// repeated key: not documented
-				self.dontcare = true;
+			if let Some(p) = props.iter_mut().find(|p| p.0 == key) {
+				// repeated key: the documentation does not say whether it is allowed, but "exactly those parameters" rules
+				// out dropping one of the values silently: a parser either rejects the text or keeps every value, in the
+				// written order, under that key (which is how the implementation represents it)
+				self.repeated = true;
+				p.1.extend(v);
+			} else {
+				props.push((key, v));
 			}
-			props.push((key, v));
 		}
 		self.ws();
 		let mut sources = vec![];
@@ -236,21 +241,23 @@ pub enum RefResult {
 	Accept(Vec<Node>),
 	Reject,
 	DontCare,
+	/// a parameter name occurs more than once: rejected, or accepted with every value kept (this tree)
+	AcceptOrReject(Vec<Node>),
 }
 
 pub fn reference_parse(text: &str) -> RefResult {
 	let chars: Vec<char> = text.chars().collect();
-	let mut strict = P { s: &chars, i: 0, lenient: false, dontcare: false };
+	let mut strict = P { s: &chars, i: 0, lenient: false, dontcare: false, repeated: false };
 	if let Ok(t) = strict.pipeline() {
 		if strict.i == chars.len() {
-			return if strict.dontcare { RefResult::DontCare } else { RefResult::Accept(t) };
+			return if strict.dontcare { RefResult::DontCare } else if strict.repeated { RefResult::AcceptOrReject(t) } else { RefResult::Accept(t) };
 		}
 	}
-	let mut len = P { s: &chars, i: 0, lenient: true, dontcare: false };
+	let mut len = P { s: &chars, i: 0, lenient: true, dontcare: false, repeated: false };
 	match len.pipeline() {
 		Ok(_) if len.i == chars.len() => RefResult::DontCare,
 		_ => {
-			if len.dontcare || strict.dontcare {
+			if len.dontcare || strict.dontcare || len.repeated || strict.repeated {
 				// rejected after passing through an undocumented construct: cannot be judged
 				RefResult::DontCare
 			} else {
@@ -526,9 +533,44 @@ fn differential(ctx: &Arc<Ctx>) {
 			(Ok(Err(_)), RefResult::Reject) => {
 				ar.fetch_add(1, std::sync::atomic::Ordering::Relaxed);
 			}
+			(Ok(Ok(got)), RefResult::AcceptOrReject(want)) => {
+				if canon(&got) != canon(&want) {
+					ctxr.violation("a parameter written more than once is accepted but one of its values is dropped or reordered", &format!("{text:?}: got {:?}, every value kept would be {:?}", canon(&got), canon(&want)), case);
+				}
+			}
+			(Ok(Err(_)), RefResult::AcceptOrReject(_)) => {}
 			(_, RefResult::DontCare) => {}
 		}
 	};
+	// parameter names written more than once: every sequence of 2 and 3 parameters over two names and four value forms
+	{
+		let keys = ["k", "k2"];
+		let vals = ["1", "\"x y\"", "[1,2]", "[3]"];
+		let mut n = 0u64;
+		for len in 2..=3usize {
+			let combos = (keys.len() * vals.len()).pow(len as u32);
+			for c in 0..combos {
+				let mut c2 = c;
+				let mut parts = vec![];
+				let mut used = vec![];
+				for _ in 0..len {
+					let kv = c2 % (keys.len() * vals.len());
+					c2 /= keys.len() * vals.len();
+					parts.push(format!("{}={}", keys[kv % keys.len()], vals[kv / keys.len()]));
+					used.push(kv % keys.len());
+				}
+				used.sort();
+				used.dedup();
+				if used.len() == len {
+					continue; // no repetition
+				}
+				judge(&format!("a {}", parts.join(" ")));
+				judge(&format!("from_x | a {} | b", parts.join("\n")));
+				n += 2;
+			}
+		}
+		ctx.outcome_n("texts that write a parameter name more than once", n);
+	}
 	// lengths 0 and 1
 	judge("");
 	for c in ALPHA {
